@@ -241,6 +241,23 @@ def judge_relay(cfg, stage, how):
             script['ehlo'] = '500'
     c.pop('helo_fallback', None)
     c['script'] = script
+    if c.pop('concurrent', False):
+        # two attempts at the same moment through one relay object: each is bounded by ITS OWN timeouts, a stalled peer of
+        # one attempt must not make the other wait
+        c['sequential'] = False
+        w = SmtpRelayWorld(Chooser(), c).run()
+        out = []
+        for i, rec in enumerate(w.results):
+            per, whole = classify(rec['outcome'], rec['env'])
+            limit = (7.0 if stage == 'connect' else 13.0 if stage.startswith('eod') else 11.0)
+            desc = 'two concurrent attempts, relay %s, peers %s at %s: attempt %d -> %s at t=%r (limit %g)' % (
+                'LMTP' if cfg.get('lmtp') else 'SMTP', how, stage, i, whole, rec['end'], limit)
+            base = {'side': 'relay', 'lmtp': bool(cfg.get('lmtp')), 'pipelining': True, 'concurrent': True}
+            if whole == 'blocked' or rec['end'] is None:
+                out.append((dict(base, kind='attempt-never-returned', stage=stage.rstrip('0123456789'), how=how), desc))
+            elif rec['end'] > limit + 1e-6:
+                out.append((dict(base, kind='attempt-returned-late', stage=stage.rstrip('0123456789'), how=how), desc))
+        return out
     w = SmtpRelayWorld(Chooser(), c).run()
     rec = w.results[0]
     per, whole = classify(rec['outcome'], rec['env'])
@@ -295,6 +312,10 @@ def relay_cases(tier):
                 yield cfg, st, 'trickle'
         if cfg.get('auth'):
             yield cfg, 'auth', 'stall-after-334'
+    for lmtp in (False, True):
+        for st in ('connect', 'banner', 'mail', 'eod0' if lmtp else 'eod'):
+            for ps in (None, 2):
+                yield dict(lmtp=lmtp, n=1, envelopes=2, concurrent=True, pool_size=ps), st, 'stall'
     for lmtp in (False, True):
         yield dict(lmtp=lmtp, n=1, unsolicited_partial='421 4.4.2 idl', idle_timeout=5.0, max_steps=400), 'unsolicited', 'stall'
 
